@@ -7,6 +7,7 @@
 -/
 import Lace.Basic.Machine
 import Lace.Basic.Fmt
+import Lace.Basic.Tables
 namespace Lace.VM
 
 /-- `RunState::reg(reg: u16)` / `reg_mut`: the argument is always `… & 0b111`
@@ -209,12 +210,38 @@ def putspLoop (minimal : Bool) (m : Machine) : Nat → Word → World → World
       if hi == Char.ofNat 0 then w
       else putspLoop minimal m n (addr + 1) (printChar minimal w hi)
 
-/-- `Output::print_registers` in minimal mode -/
+/-- `Output::print_integer_inner` in normal mode -/
+def printIntegerInner (minimal : Bool) (w : World) (v : Word) : World :=
+  let w := printStr minimal w ("0x".toList ++ hex4 v)
+  let w := printStr minimal w ("  ".toList ++ Tables.padLeft 6 (decI16 v))
+  let w := printStr minimal w ("  ".toList ++ Tables.padLeft 6 (decNat v.toNat))
+  let w := printStr minimal w "    ".toList
+  printStr minimal w (Tables.charDisplay v)
+
+/-- `Output::print_registers` -/
 def printRegisters (minimal : Bool) (m : Machine) (w : World) : World :=
-  let w := (List.range 8).foldl (fun w i =>
-      printStr minimal w (['R'] ++ decNat i ++ [' ', 'x'] ++ hex4 (reg m (BitVec.ofNat 16 i)) ++ ['\n'])) w
-  let w := printStr minimal w ("PC x".toList ++ hex4 m.pc ++ ['\n'])
-  printStr minimal w ("CC ".toList ++ bin3 ((flagBits m.cc).setWidth 3) ++ ['\n'])
+  if minimal then
+    let w := (List.range 8).foldl (fun w i =>
+        printStr minimal w (['R'] ++ decNat i ++ [' ', 'x'] ++ hex4 (reg m (BitVec.ofNat 16 i)) ++ ['\n'])) w
+    let w := printStr minimal w ("PC x".toList ++ hex4 m.pc ++ ['\n'])
+    printStr minimal w ("CC ".toList ++ bin3 ((flagBits m.cc).setWidth 3) ++ ['\n'])
+  else
+    let w := printStr minimal w "\x1b[2m┌───────────────────────────────────┐\x1b[0m\n".toList
+    let w := printStr minimal w "\x1b[2m│        \x1b[3mhex     int    uint    chr\x1b[0m\x1b[2m │\x1b[0m\n".toList
+    let w := (List.range 8).foldl (fun w i =>
+        let w := printStr minimal w "\x1b[2m│\x1b[0m".toList
+        let w := printStr minimal w (" \x1b[1mR\x1b[1m".toList ++ decNat i ++ "\x1b[0m  ".toList)
+        let w := printIntegerInner minimal w (reg m (BitVec.ofNat 16 i))
+        printStr minimal w " \x1b[2m│\x1b[0m\n".toList) w
+    let w := printStr minimal w "\x1b[2m├─────────────────┬─────────────────┤\x1b[0m\n".toList
+    let w := printStr minimal w "\x1b[2m│\x1b[0m".toList
+    let w := printStr minimal w "    \x1b[1mPC\x1b[0m".toList
+    let w := printStr minimal w (" 0x".toList ++ hex4 m.pc)
+    let w := printStr minimal w "\x1b[2m    │    \x1b[0m".toList
+    let w := printStr minimal w " \x1b[1mCC\x1b[0m".toList
+    let w := printStr minimal w ("  ".toList ++ bin3 ((flagBits m.cc).setWidth 3))
+    let w := printStr minimal w "     \x1b[2m│\x1b[0m\n".toList
+    printStr minimal w "\x1b[2m└─────────────────┴─────────────────┘\x1b[0m\n".toList
 
 def trap (minimal : Bool) (m : Machine) (w : World) (instr : Word) : StepResult :=
   let trapVect := instr &&& 0xFF#16
